@@ -20,6 +20,7 @@ import (
 	"math/rand"
 	"os"
 	"runtime/debug"
+	"strconv"
 	"sync/atomic"
 	"testing"
 
@@ -124,6 +125,8 @@ type lsSim struct {
 	counts  map[string]int
 	crashMode bool
 	big       bool
+	wide      bool // now and then one save carries thousands of entries for several replicas
+	forceCnt  int
 	forceSnap bool
 }
 
@@ -278,7 +281,7 @@ func (s *lsSim) genUpdate(k int) (pb.Update, jUp) {
 	ju := jUp{N: k, Ents: []jLE{}}
 	c := s.rng.Intn(100)
 	switch {
-	case (c < 6 || s.forceSnap) && n.hasState: // a restored snapshot: the log restarts at its index
+	case (c < 6 || s.forceSnap) && n.hasState && s.forceCnt == 0: // a restored snapshot: the log restarts at its index
 		idx := n.last + 1 + uint64(s.rng.Intn(4))
 		n.lastTerm++
 		ud.Snapshot = pb.Snapshot{Index: idx, Term: n.lastTerm, Type: pb.RegularStateMachine}
@@ -286,8 +289,11 @@ func (s *lsSim) genUpdate(k int) (pb.Update, jUp) {
 		n.last, n.floor, n.ss, n.rm = idx, idx, idx, idx
 		n.terms = map[uint64]uint64{}
 		n.commit = idx
-	case c < 75: // append
+	case c < 75 || s.forceCnt > 0: // append
 		cnt := 1 + s.rng.Intn(7)
+		if s.forceCnt > 0 {
+			cnt = s.forceCnt + s.rng.Intn(60)
+		}
 		if s.rng.Intn(5) == 0 {
 			n.lastTerm++
 		}
@@ -308,11 +314,11 @@ func (s *lsSim) genUpdate(k int) (pb.Update, jUp) {
 	for _, e := range ud.EntriesToSave {
 		ju.Ents = append(ju.Ents, jLE{e.Index, e.Term, entVal(e), uint64(e.SizeUpperLimit())})
 	}
-	if !n.hasState || s.rng.Intn(3) == 0 || ju.Ss != 0 {
+	if !n.hasState || s.rng.Intn(3) == 0 || ju.Ss != 0 || s.forceCnt > 0 {
 		if n.term < n.lastTerm {
 			n.term = n.lastTerm
 		}
-		if s.rng.Intn(4) == 0 {
+		if s.rng.Intn(4) == 0 || s.forceCnt > 0 {
 			n.term++
 			n.vote = 0
 		}
@@ -348,6 +354,15 @@ func (s *lsSim) save(crashAt int64) {
 	for k := range s.nodes {
 		if k != k0 && group(s.nodes[k].Shard) == group(s.nodes[k0].Shard) && s.rng.Intn(3) > 0 {
 			ks = append(ks, k)
+		}
+	}
+	if s.forceCnt > 0 {
+		// a very large save: every replica of the partition takes part
+		ks = []int{k0}
+		for k := range s.nodes {
+			if k != k0 && group(s.nodes[k].Shard) == group(s.nodes[k0].Shard) {
+				ks = append(ks, k)
+			}
 		}
 	}
 	uds := []pb.Update{}
@@ -435,6 +450,11 @@ func (s *lsSim) run(steps int) {
 		k := s.rng.Intn(len(s.nodes))
 		n := s.nodes[k]
 		switch c := s.rng.Intn(100); {
+		case c < 6 && s.wide && s.crashMode:
+			s.wide = false // one per trace (they are expensive to judge)
+			s.forceCnt = 2060
+			s.save(int64(lsEnvInt("VERIF_WIDEAT", 12+s.rng.Intn(10))))
+			s.forceCnt = 0
 		case c < 55:
 			s.save(0)
 		case c < 62 && s.crashMode:
@@ -669,6 +689,7 @@ func TestVerifLssim(t *testing.T) {
 		}
 		// Tan's log file size is a constant (64MB): rollover and index-block boundaries are
 		// reached with multi-megabyte payloads in some of the Tan traces
+		s.wide = s.flavour == "plain" && tid%32 == 4
 		s.big = (s.flavour == "tan" || s.flavour == "tanmux") && tid%16 >= 12 && os.Getenv("VERIF_BIG") == "1"
 		s.mem = vfs.NewStrictMem()
 		s.inj = &crashInjector{mem: s.mem}
@@ -703,4 +724,13 @@ func TestVerifLssim(t *testing.T) {
 		debug.FreeOSMemory()
 	}
 	fmt.Printf("LSSIM-STATS %v\n", total)
+}
+
+func lsEnvInt(k string, d int) int {
+	if v := os.Getenv(k); v != "" {
+		if n, err := strconv.Atoi(v); err == nil {
+			return n
+		}
+	}
+	return d
 }
